@@ -41,7 +41,7 @@ def exPr : Params Rat :=
 
 /-- the solve with `x₀ = [3]`, `y = [5]`, `Σ = [2]`, `err_z` pre-filled with `[7]` -/
 def exRun (stop : Nat → Bool) : Result Rat Unit :=
-  run exP exDir () exPr stop false [3] [5] [2] [7] [] 0
+  run exP exDir () exPr stop false [3] [5] [2] [7] [] 0 1000000
 
 /-- stop request raised during the 9th event (inside the first line search) -/
 def stopAt9 : Nat → Bool := fun t => decide (t ≥ 9)
